@@ -176,12 +176,14 @@ def make_world(wname):
         w.sf = {}
         functional, _ = O.iso_table()
         for code in ('EUR', 'JPY', 'TND'):
-            w.apply(['cur', code])
+            w.must(['cur', code])
             (minor,) = functional[code]['minor']
             w.sf[code] = F(1, 10 ** minor)
         return w
     w, err = build_world(USER)
-    assert err is None, err
+    if err is not None:
+        from ..world import SetupRejected
+        raise SetupRejected(*err)
     return w
 
 
